@@ -165,9 +165,11 @@ type Explorer struct {
 	nenv atomic.Int64
 
 	Nodes, Txs, MemoHits, ColdHits, States, EnvNanos, RunTxs atomic.Int64
+	nsample                                                  atomic.Int64
 	stateSet                                                 sync.Map
 	mu                                                       sync.Mutex
 	Mis                                                      []Mismatch
+	Aborts                                                   []Mismatch        // aborted transactions of reference-less families (observations)
 	single                                                   map[string]string // fam|seq -> observed "rets#dump" of the single-tx history
 }
 
@@ -238,6 +240,14 @@ func abortClass(log string) string {
 	return l
 }
 
+func taskRank(t task) int {
+	r := 0
+	for i := 0; i < len(t.prefix); i++ {
+		r = r*64 + strings.IndexByte(t.f.Ops, t.prefix[i])
+	}
+	return r
+}
+
 type task struct {
 	f      *Family
 	prefix string // op prefix (length min(2,K)) every history of the task starts with
@@ -285,6 +295,8 @@ func (x *Explorer) Run() {
 		}
 		gen("")
 	}
+	// interleave the families so that a budget-capped run covers all of them partially
+	sort.SliceStable(tasks, func(i, j int) bool { return taskRank(tasks[i]) < taskRank(tasks[j]) })
 	// warm one env first (the first stdlib load is process-wide and slow)
 	x.putEnv(x.getEnv())
 	x.R.ParFor(len(tasks), func(i int) {
@@ -373,6 +385,10 @@ func (x *Explorer) node(e *Env, t task, hist []string, seq string, memo *taskMem
 	if f.NoRef && !res.OK {
 		// aborted transaction: nothing may have changed; the graph must still be consistent
 		x.R.Outcome("tx-aborted:" + abortClass(res.Log))
+		x.mu.Lock()
+		x.Aborts = append(x.Aborts, Mismatch{Fam: f.Name, Class: abortClass(res.Log), Hist: hist, Seq: seq, Got: FirstLine(res.Log)})
+		x.mu.Unlock()
+		memo.obs[seq] = append(memo.obs[seq], obsEntry{strings.Join(hist, "|"), "TX ABORTED: " + abortClass(res.Log)})
 		if x.Graph != nil {
 			for _, gi := range x.Graph(e, f) {
 				x.addMis(Mismatch{Fam: f.Name, Class: "graph:" + gi.Kind, Hist: hist, Seq: seq, Got: gi.Detail})
@@ -394,6 +410,9 @@ func (x *Explorer) node(e *Env, t task, hist []string, seq string, memo *taskMem
 		x.mu.Lock()
 		x.single[f.Name+"|"+seq] = s
 		x.mu.Unlock()
+	}
+	if len(hist) == 3 && len(seq) == x.K && x.nsample.Add(1) <= 3 {
+		x.R.Sample(map[string]any{"family": f.Name, "transactions": hist, "ops": f.Describe(seq), "result_of_last_tx": s})
 	}
 	bad, graphBad := false, false
 	if f.NoRef {
@@ -557,7 +576,14 @@ func (x *Explorer) Replay(f *Family, m Mismatch) (string, error) {
 		last = e.Call(f.Path, "Do", "")
 	}
 	if s, ok := last.Str(); ok && last.OK {
+		if m.Class == "cuts-disagree" {
+			_, d, _ := ParseDo(s)
+			return d, nil
+		}
 		return s, nil
+	}
+	if m.Class == "cuts-disagree" {
+		return "TX ABORTED: " + abortClass(last.Log), nil
 	}
 	return FirstLine(last.Log), nil
 }
@@ -651,6 +677,9 @@ func (x *Explorer) RunScripts(kmax int) {
 	}
 	var tasks []rt
 	for _, f := range x.Fams {
+		if f.NoRef {
+			continue // no Op() entry point / reference for multi-realm families
+		}
 		for i := 0; i < len(f.Ops); i++ {
 			tasks = append(tasks, rt{f, f.Ops[i]})
 		}
